@@ -14,6 +14,7 @@ import (
 	"io"
 	"log"
 	"math/rand"
+	"os"
 	"sort"
 	"strings"
 	"testing"
@@ -193,6 +194,37 @@ func genHistory(r *rand.Rand, g *wsclient.Gen, seed int64) *history {
 	return h
 }
 
+// pinnedHistory 0: unsubscribe lands during an in-flight run (which then ends
+// with context.Canceled and spawns its own asynchronous close), and the id is
+// subscribed again while that asynchronous close is held at its entry.
+func pinnedHistory(g *wsclient.Gen, seed int64) *history {
+	q := func(tag, fields string) string { return fmt.Sprintf("{ root(tag: %q) { %s } }", tag, fields) }
+	cfg := wsclient.Config{Seed: seed, MaxSubs: 5, MinRerunUS: 1000, DefMode: wsclient.ModeReplace}
+	cfg.Injections = []wsclient.InjSpec{{Point: "server.closeSubscription.enter", Visit: 2, TimeoutMS: 100,
+		Steps: []wsclient.Step{{Kind: "sub", ID: "a", Tag: "t2", Query: q("t2", "n nums"), Wait: true}}}}
+	op := g.AddOp(wsclient.Op{Cell: "slow", Val: int64(1000)})
+	op2 := g.AddOp(wsclient.Op{Cell: "n", Val: int64(1000)})
+	return &history{gen: g, Cfg: cfg, Steps: []wsclient.Step{
+		{Kind: "sub", ID: "a", Tag: "t1", Query: q("t1", "slow(us: 100) exp"), Wait: true},
+		{Kind: "echo", ID: "e1", Wait: true, PauseUS: 3000},
+		{Kind: "gate", Cell: "slow", Phase: 0, Op: op, Then: []wsclient.Step{{Kind: "unsub", ID: "a"}}, Hold: true, PauseUS: 5000},
+		{Kind: "sync", PauseUS: 40000},
+		{Kind: "write", Op: op2, PauseUS: 2000},
+	}}
+}
+
+const numPinned = 1
+
+// classStaleClose: see FINDINGS.md.
+const classStaleClose = "stale-async-close"
+
+func classify(inst *wsclient.Instance) string {
+	if inst != nil && inst.EndKind == "log-unsub" && inst.EndCause == "unexplained" && inst.PriorSameID {
+		return classStaleClose
+	}
+	return ""
+}
+
 func js(v interface{}) string {
 	b, err := json.Marshal(v)
 	if err != nil {
@@ -213,7 +245,7 @@ type verdict struct {
 // converged compares, for every live subscription, the folded client state
 // with a fresh Execute of its query against the current data.
 func converged(s *wsclient.Session, a *wsclient.Analysis) verdict {
-	for _, inst := range a.Live() {
+	for _, inst := range a.ClientLive() {
 		ups := a.Updates(inst)
 		if len(ups) == 0 {
 			return verdict{what: "live subscription has received no update", inst: inst}
@@ -252,14 +284,15 @@ func TestCheck(t *testing.T) {
 	run := vlib.Start(t, "C02", "exploration")
 	defer run.Finish()
 	run.Rule("histories over one websocket connection (scripted JSONSocket) against a schemabuilder schema over a mutable store: 14-40 steps of subscribe (ids from a pool of 5, reused after unsubscribe; 1-6 fields over scalars, nullable object, keyed lists (nested), unkeyed object/scalar/nested lists, unions with and without key, union lists, slow and Expensive fields), " +
-		"subscribe with a live id, unsubscribe (live / unknown id), mutate (own id namespace), echo, direct writes, write bursts, gate steps (a resolver of an in-flight run is held after AddDependency or after reading while 1-3 further writes, optionally an unsubscribe or a mutation, land), transient resolver failures on re-runs, plus 0-2 writes injected at named hook points; " +
+		"subscribe with a live id, unsubscribe (live / unknown id), mutate (own id namespace), echo, direct writes, write bursts, gate steps (a resolver of an in-flight run is held after AddDependency or after reading while 1-3 further writes, optionally an unsubscribe or a mutation, land), transient resolver failures on re-runs, plus 0-2 writes injected at named hook points; case 0 is a pinned history (unsubscribe during an in-flight run, id re-subscribed while the run's own asynchronous close is pending); " +
 		"cells notify by Invalidate-and-replace, Strobe, or per-read resources (seeded per cell); seeded pacing and yield-hook perturbation. " +
 		"Non-trivial = >= 2 writes logged while a subscription execution was in flight AND >= 1 non-initial update with a structural delta (reorder / removal / object, list or null replacement). Distinct = step-kind sequence + set of non-initial delta shapes.")
 	run.Assume("store cells follow the discipline AddDependency(resource) then read; writers change the value then Invalidate/Strobe; a resource released by its last dependant is replaced (thunder releases = permanently invalidates it)")
 	run.Assume("expected values come from thunder's own executor (fresh Execute outside any rerunner), so executor defects (C01) do not count here")
 	run.Assume("mutation ids never collide with subscription ids in these histories (C17 covers collisions)")
+	run.Assume("a subscription the server ended (logger Unsubscribe) without the client's unsubscribe, without an error envelope and without a close is still live for the client and must converge")
 	run.Assume("vlib.MergeTS is a faithful port of client/src/merge.ts")
-	n := run.N(60, 1500)
+	n := run.N(120, 1500)
 	agg := vlib.NewHitAgg()
 	defer agg.Report(run)
 	run.Each(n, 1, func(i int) {
@@ -271,7 +304,12 @@ func TestCheck(t *testing.T) {
 func runCase(run *vlib.Run, agg *vlib.HitAgg, i int) {
 	r := run.Rand("hist", i)
 	g := wsclient.NewGen(run.Rand("data", i))
-	h := genHistory(r, g, run.Seed()*1000003+int64(i))
+	var h *history
+	if i < numPinned {
+		h = pinnedHistory(g, run.Seed()*1000003+int64(i))
+	} else {
+		h = genHistory(r, g, run.Seed()*1000003+int64(i))
+	}
 	s := wsclient.StartSession(h.Cfg, g)
 	s.SetOps(g.Ops())
 	defer func() {
@@ -336,7 +374,7 @@ func runCase(run *vlib.Run, agg *vlib.HitAgg, i int) {
 		}
 		return worst, wid
 	}
-	out := vlib.WaitCond(cond, s.Activity, 3*time.Second, 25*time.Second)
+	out := vlib.WaitCond(cond, s.Activity, 2*time.Second, 25*time.Second)
 	if out == vlib.Reached {
 		// let everything that is still moving finish, then look again: the
 		// client must still hold the final value
@@ -358,7 +396,7 @@ func runCase(run *vlib.Run, agg *vlib.HitAgg, i int) {
 	reruns, rid := rerunsAfterLastWrite(a)
 	switch out {
 	case vlib.QuiescentNot:
-		run.Violation(i, "", witness(map[string]interface{}{"what": last.what, "detail": last.detail, "instance": last.inst, "got": vlib.Trunc(last.got, 3000), "want": vlib.Trunc(last.want, 3000),
+		run.Violation(i, classify(last.inst), witness(map[string]interface{}{"what": last.what, "detail": last.detail, "instance": last.inst, "got": vlib.Trunc(last.got, 3000), "want": vlib.Trunc(last.want, 3000),
 			"quiescent": true, "updates": updatesOf(a, last.inst)}))
 	case vlib.Undecided:
 		if reruns > 50 {
@@ -369,6 +407,9 @@ func runCase(run *vlib.Run, agg *vlib.HitAgg, i int) {
 		return
 	}
 
+	if os.Getenv("VERIF_DEBUG_LOG") != "" {
+		fmt.Println(strings.Join(wsclient.Render(a.Events, false, 0), "\n"))
+	}
 	// ---- rules over the merged log
 	for _, an := range a.Anomalies {
 		switch an.Rule {
